@@ -10,10 +10,10 @@ CONSTANTS
   OblTruthful = TRUE
   OblLockCover = TRUE
   OblDirtyRefused = TRUE
-  OblIdempotent = FALSE
+  OblIdempotent = TRUE
   OblFence = TRUE
   OblP1Atomic = TRUE
-  OblHonest = TRUE
+  OblHonest = FALSE
   AllowXA = FALSE
   OblXATruthful = TRUE
 INVARIANTS TypeOK ATAtomicRollback TCCAtomic NoDirtyGlobalWrite RollbackPossible
